@@ -30,12 +30,19 @@
                 it follows the first IMMEDIATELY - a third identical pair is a new command, and a pair
                 that follows text or a null (fill) pair is a new command as well.
 
-   Covered codes: RCL, RU2/3/4, RDC, EOC, EDM, ENM, CR (roll-up), BS, DER, TO1-3, PAC (15 rows, 8 indents,
-   colour, italics, underline), mid-row codes, printable characters incl. one special character, control
-   codes repeated 1..4 times on field 1, null pairs, channels and fields interleaved.
-   Not generated (see Legal and doc/notes-C08.md): text channels T1-T4, background attributes, FON,
-   extended characters, PACs that move a NON-EMPTY roll-up window, change of roll-up depth without mode
-   change, and the other inputs on which caption.c is known to leave the standard.  *)
+   * (f)(2)(i), (f)(3)(i)  CR has no effect in pop-on and paint-on mode.
+   * (e)(1)     a PAC indent and a tab offset move the cursor, they erase nothing.
+   * every field is a data stream of its own with its own current channel.
+
+   Covered codes: RCL, RU2/3/4, RDC, EOC, EDM, ENM, CR, BS, DER, TO1-3, PAC (15 rows, 8 indents, colour, italics,
+   underline), mid-row codes, printable characters incl. one special character, control codes repeated 1..4 times
+   on field 1, null pairs, channels and fields interleaved.
+   Not generated: text channels T1-T4, background attributes, FON, extended characters; the inputs named by the
+   clauses of Violated (PAC moving a NON-EMPTY roll-up window, change of roll-up depth without mode change, mode changes
+   over non-empty memories, EOC flipping back to a caption that was not erased, cursor relative codes directly after
+   EOC) - caption.c is known to leave the standard there, doc/notes-C08.md; with the clause in Beyond they are generated
+   and the divergence is reported as the known finding of the clause.  The pen is the simple one (PAC and mid-row codes
+   set it, characters use it): the attribute inheritance rules of EIA-608-B Annex C.7 / C.14 are not modelled.  *)
 EXTENDS Naturals, Integers, Sequences, FiniteSets, TLC
 
 CONSTANTS Chans,        \* subset of 1..4
@@ -45,8 +52,9 @@ CONSTANTS Chans,        \* subset of 1..4
           Indents,      \* PAC indents used (subset of {0, 4, .., 28})
           Depths,       \* roll-up depths used (subset of {2, 3, 4})
           Tabs,         \* tab offsets used (subset of {1, 2, 3})
-          Kinds         \* control code classes used: subset of AllKinds; "PACX" adds the coloured / italic /
+          Kinds,        \* control code classes used: subset of AllKinds; "PACX" adds the coloured / italic /
                         \* underlined PAC variants, "NULL" the null pairs, "TEXT" the character pairs
+          Beyond        \* exclusion clauses (see Violated) that are lifted: {} for the sub-language the check decides
 
 AllKinds == {"RCL", "RDC", "EOC", "EDM", "ENM", "CR", "BS", "DER", "RU", "TO", "PAC", "PACX", "MID", "SPC", "NULL", "TEXT"}
 
@@ -65,13 +73,13 @@ VARIABLES ch,          \* per channel state
           last,        \* last control pair received on field 1 if the next pair may be its repetition, or <<>>
           vis,         \* channels whose displayed memory is at a visibility point after this pair
           ev,          \* channels whose visible page changed with this pair (caption event expected)
-          lm,          \* ghost: channel of the last mode command (RCL, RUx, RDC, EOC) on either field
+          lm,          \* ghost: per field the channel of its last mode command (RCL, RUx, RDC, EOC), 0: none
           np, lastAct
 vars == <<ch, cur, last, vis, ev, lm, np, lastAct>>
 
 FieldOf(c) == IF c <= 2 THEN 1 ELSE 2
 Init == /\ ch = [c \in Chans |-> Chan0] /\ cur = [f \in {1, 2} |-> 0] /\ last = <<>>
-        /\ vis = {} /\ ev = {} /\ lm = 0 /\ np = 0 /\ lastAct = [a |-> "init"]
+        /\ vis = {} /\ ev = {} /\ lm = [f \in {1, 2} |-> 0] /\ np = 0 /\ lastAct = [a |-> "init"]
 
 \* memory that receives text
 Target(s) == IF s.mode = "pop" THEN "nond" ELSE "disp"
@@ -137,7 +145,7 @@ Ctrl(c, code) ==
       rep == IsRep(c, code)
   IN /\ np' = np + 1 /\ lastAct' = [a |-> "Ctrl", c |-> c, code |-> code]
      /\ last' = IF f = 1 THEN (IF rep THEN <<>> ELSE <<c, code>>) ELSE last
-     /\ lm' = IF ~rep /\ code.k \in {"RCL", "RU", "RDC", "EOC"} THEN c ELSE lm
+     /\ lm' = IF ~rep /\ code.k \in {"RCL", "RU", "RDC", "EOC"} THEN [lm EXCEPT ![f] = c] ELSE lm
      /\ IF rep THEN UNCHANGED <<ch, cur>> /\ vis' = {} /\ ev' = {}
         ELSE /\ ch' = [ch EXCEPT ![c] = Do(@, code)]
              /\ cur' = [cur EXCEPT ![f] = c]
@@ -146,14 +154,17 @@ Ctrl(c, code) ==
              /\ vis' = IF code.k \in Quiet THEN {} ELSE {c}
              /\ ev' = IF ch'[c].disp # ch[c].disp /\ code.k \notin Quiet THEN {c} ELSE {}
 
+\* Characters go to the channel the field's last control pair addressed.  Whether a PAC or mid-row code for the other
+\* channel of the field re-selects the channel is read both ways (EIA-608-B 7.7 names the mode commands only): clause "select"
+\* keeps to streams on which both readings agree.  "fresh": see Violated.
+TextViolated(f) == IF cur[f] = 0 THEN {}
+                   ELSE (IF cur[f] # lm[f] THEN {"select"} ELSE {}) \cup (IF ch[cur[f]].fresh /\ ch[cur[f]].mode # "none" THEN {"fresh"} ELSE {})
 \* a pair of printable characters on field f (second may be 0 = none)
 Text(f, c1, c2) ==
   /\ np' = np + 1 /\ lastAct' = [a |-> "Text", f |-> f, c1 |-> c1, c2 |-> c2]
   /\ last' = IF f = 1 THEN <<>> ELSE last
   /\ UNCHANGED <<cur, lm>>
-  \* sub-language: characters follow a mode command of their channel (a PAC or mid-row code alone does not
-  \* re-select a channel in the decoder under test, see DESIGN.md C08); not directly after EOC (cursor, see Legal)
-  /\ cur[f] # 0 => (cur[f] = lm /\ ~ch[cur[f]].fresh)
+  /\ TextViolated(f) \subseteq Beyond
   /\ IF cur[f] = 0 \/ ch[cur[f]].mode = "none" THEN UNCHANGED ch /\ vis' = {} /\ ev' = {}
      ELSE LET c == cur[f]
               s1 == Put(ch[c], Glyph(ch[c], c1))
@@ -183,25 +194,27 @@ Codes == (IF K("RCL") THEN {[k |-> "RCL"]} ELSE {}) \cup (IF K("RDC") THEN {[k |
          \cup (IF K("MID") THEN {[k |-> "MID", fg |-> 6, ul |-> FALSE, it |-> FALSE], [k |-> "MID", fg |-> 7, ul |-> TRUE, it |-> TRUE]} ELSE {})
          \cup (IF K("SPC") THEN {[k |-> "SPC", u |-> 174]} ELSE {})
 
-\* Inputs outside the sub-language this module decides.  Each line is a place where caption.c is known to leave
-\* the standard (doc/notes-C08.md lists them with the reason); the reference machine above still says what the
-\* standard demands there.
-\* the cells a tab offset skips (from the cursor to the cell before the new position)
-CellsFree(s, n) == \A k \in s.col..(IF s.col + n - 1 > 32 THEN 32 ELSE s.col + n - 1) : GetMem(s)[s.row][k] = Empty
-Legal(c, code) ==
+\* Inputs outside the sub-language this module decides: Violated names the clauses a control pair breaks.  Each clause is a
+\* place where caption.c is known to leave the standard (doc/notes-C08.md lists them with the reason); the reference machine
+\* above still says what the standard demands there, and with the clause in Beyond the generators produce such inputs too
+\* (the check then reports the divergence as the known finding of that clause).
+Cond(b, name) == IF b THEN {name} ELSE {}
+Violated(c, code) ==
   LET s == ch[c] IN
-  /\ (code.k = "PAC" /\ s.mode = "roll") => (ClampBase(code.row, s.roll) = s.base \/ s.disp = Mem0)   \* PAC moving a non-empty window
-  /\ (code.k = "RU" /\ s.mode = "roll") => code.n = s.roll                 \* no change of depth without mode change
-  /\ code.k = "CR" => s.mode = "roll"                                      \* CR in pop-on / paint-on mode
-  /\ code.k = "EOC" => (s.mode \in {"pop", "none"} /\ ~s.stale)            \* flip back to a caption that was not erased
-  /\ code.k = "RCL" => (s.mode \in {"pop", "none"} \/ s.disp = Mem0)      \* pop-on after roll-up / paint-on starts from a cleared screen
-  /\ code.k \in {"SPC", "MID"} => s.mode # "none"                          \* characters before any mode command
-  /\ code.k = "RDC" => (s.mode = "paint" \/ (s.nond = Mem0 /\ s.disp = Mem0))   \* paint-on starts from cleared memories
-  /\ code.k \in {"SPC", "MID", "BS", "DER", "TO"} => ~s.fresh             \* cursor position after EOC without PAC
-  /\ (code.k = "PAC" /\ code.indent > 0 /\ s.mode # "none") =>                \* PAC indent / TO over cells that are not empty
-        (LET tr == IF s.mode = "roll" THEN ClampBase(code.row, s.roll) ELSE code.row IN
-         \A k \in 1..code.indent : GetMem(s)[tr][k] = Empty)
-  /\ (code.k = "TO" /\ s.mode # "none") => CellsFree(s, code.n)
+  \* "move": a PAC moves a roll-up window that is not empty (608: moved intact; caption.c erases it)
+  Cond(code.k = "PAC" /\ s.mode = "roll" /\ ClampBase(code.row, s.roll) # s.base /\ s.disp # Mem0, "move")
+  \* "resize": RUx with another depth while in roll-up mode (608: the window is resized; caption.c starts over on row 15)
+  \cup Cond(code.k = "RU" /\ s.mode = "roll" /\ code.n # s.roll, "resize")
+  \* "flip": EOC while the non-displayed memory still holds the caption displayed before (608: it comes back; caption.c erased it)
+  \cup Cond(code.k = "EOC" /\ s.stale, "flip")
+  \* "work": mode changes over memories that are not empty - EOC in roll-up / paint-on mode, RCL after roll-up / paint-on text,
+  \* RDC over a loaded or displayed caption (caption.c uses the non-displayed memory as work buffer of roll-up and paint-on mode)
+  \cup Cond(code.k = "EOC" /\ s.mode \in {"roll", "paint"}, "work")
+  \cup Cond(code.k = "RCL" /\ s.mode \in {"roll", "paint"} /\ s.disp # Mem0, "work")
+  \cup Cond(code.k = "RDC" /\ s.mode # "paint" /\ (s.nond # Mem0 \/ s.disp # Mem0), "work")
+  \* "fresh": a cursor relative code directly after EOC, without PAC (608: the cursor stays; caption.c puts it on row 15 column 1)
+  \cup Cond(code.k \in {"SPC", "MID", "BS", "DER", "TO"} /\ s.fresh /\ s.mode # "none", "fresh")
+Legal(c, code) == Violated(c, code) \subseteq Beyond
 \* a step whose code class is in KS
 NextK(KS) == \/ \E c \in Chans, code \in {x \in Codes : x.k \in KS} : (IsRep(c, code) \/ Legal(c, code)) /\ Ctrl(c, code)
              \/ "TEXT" \in KS /\ K("TEXT") /\ \E f \in {FieldOf(c) : c \in Chans}, c1 \in Chars, c2 \in Chars \cup {0} : Text(f, c1, c2)
@@ -220,7 +233,16 @@ PopOnStable == [][\A c \in Chans : (ch[c].mode = "pop" /\ ch'[c].mode = "pop" /\
 WindowOK == \A c \in Chans : ch[c].mode = "roll" =>
                /\ ch[c].base - ch[c].roll + 1 >= 0 /\ ch[c].base <= 14 /\ ch[c].row = ch[c].base
                /\ \A r \in 0..14 : (r > ch[c].base \/ r <= ch[c].base - ch[c].roll) => ch[c].disp[r] = Row0
-\* only one repetition of a control pair is swallowed: a pair that changed nothing although it was no repetition
-\* is a no-op of the machine itself (last is empty after a swallowed pair)
+\* only one repetition of a control pair is swallowed: a pair that arrives when nothing can be repeated is executed
+\* and opens the window for its own repetition
 OneRep == [][(lastAct'.a = "Ctrl" /\ last = <<>>) => (last' # <<>> \/ FieldOf(lastAct'.c) = 2)]_vars
+\* characters and null pairs close the repetition window of field 1
+RepWindow == [][(lastAct'.a \in {"Text", "Null"} /\ lastAct'.f = 1) => last' = <<>>]_vars
+\* an executed DER leaves nothing at or right of the cursor; an executed BS changes at most the cell left of the cursor
+Executed(k) == lastAct'.a = "Ctrl" /\ lastAct'.code.k = k /\ ~IsRep(lastAct'.c, lastAct'.code)
+DerClears == [][Executed("DER") => LET s == ch'[lastAct'.c] IN
+                   s.mode # "none" => \A k \in s.col..32 : GetMem(s)[s.row][k] = Empty]_vars
+BsOne == [][Executed("BS") => LET s == ch[lastAct'.c] t == ch'[lastAct'.c] IN
+               /\ t.col = (IF s.mode = "none" \/ s.col = 1 THEN s.col ELSE s.col - 1) /\ t.row = s.row
+               /\ \A r \in 0..14, k \in Cols : (r # s.row \/ k # s.col - 1) => (t.disp[r][k] = s.disp[r][k] /\ t.nond[r][k] = s.nond[r][k])]_vars
 =============================================================================
